@@ -29,3 +29,5 @@ package main
 //@   call 0 ConfigStringDefault assert !chThreshold && !chVerbose && !chNoVerbose && !chCritical
 //@   call 1 ConfigStringDefault assert !chNames
 //@   call 0 ConfigBoolDefault assert !chProgress && !chNoProgress
+
+//@ property C14: (*NegatedBoolValue).Set mainImplementation
